@@ -150,6 +150,9 @@ def _layouts(ctx):
             x.append(x[-1] + g)
             g *= rng.uniform(1.0, 1.8)
         out.append(x)
+    for n in ([60, 120] if ctx.quick else [120, 300, 300]):     # long layouts (size-dependent code paths)
+        cs = [rng.uniform(0.0, 1000.0) for _ in range(rng.randint(3, 12))]
+        out.append(sorted(rng.choice(cs) + rng.gauss(0.0, 8.0) for _ in range(n)))
     for _ in range(m):                                # integer-valued floats: exact ties become "near"
         n = rng.randint(2, 12)
         out.append([float(v) for v in sorted(rng.sample(range(0, 33), n))])
